@@ -345,9 +345,9 @@ def run(ctx):
         n_single = n_avg = 0
         exits = set()
         # quick: the loop body is seen zero and one time (one full iteration + the exit of the second);
-        # thorough: one more unrolling, so the weights of TWO consecutive full iterations and the exit of a third are
-        # checked - the step k -> k+1 of the telescoping argument with both iterations symbolic
-        depth = 3 if ctx.tier == "thorough" else None
+        # thorough: two more unrollings, so the weights of THREE consecutive full iterations and the exit of a fourth are
+        # checked - the step k -> k+1 of the telescoping argument with the iterations symbolic
+        depth = 4 if ctx.tier == "thorough" else None
         try:
             all_paths = ix.ev.paths(f, depth) if depth else ix.paths(f)
         except Exception:
